@@ -495,7 +495,7 @@ class FracLaplPlan:
     def _cache_ld_vectors(self, drho, l1_data, make_copy):
         assert len(l1_data[0]) % 3 == 0
         assert len(l1_data[0]) // 3 == self.settings.nd1
-        for i in range(self.settings.nk1):
+        for i in range(self.settings.nd1):
             self._cached_ld_data.append(l1_data[:, 3 * i : 3 * i + 3])
         self._cached_ld_data.append(drho)
         if make_copy:
